@@ -1229,6 +1229,11 @@ def store(
             stored_persisted = persist(*arrays, **kwargs)
             arrays = []
             for s, r in zip(stored_persisted, regions_list):
+                if load_stored:
+                    # the persisted chunks already are the loaded data, not
+                    # targets that still have to be read with ``load_chunk``
+                    arrays.append(s)
+                    continue
                 slices = ArraySliceDep(s.chunks)
                 arrays.append(
                     s.map_blocks(
